@@ -209,7 +209,7 @@ def gen_bu_cases(c):
         for op in ('bu-lshift', 'bu-rshift'):
             cases.append((op, a, None, 'corpus')); cases.append((op, b, None, 'corpus'))
     # cheap ops: long operands
-    for _ in range(60 * N):
+    for _ in range(100 * N):
         for a, b, fam in pair_families(70):
             for op in ('bu-add', 'bu-sub', 'bu-cmp'):
                 cases.append((op, a, b, fam))
@@ -465,7 +465,7 @@ def gen_br_cases(c):
         yield rat_of(r, Fraction(0)), y, 'zero-left'
         yield x, rat_of(r, Fraction(0)), 'zero-right'
 
-    for _ in range(25 * N):
+    for _ in range(40 * N):
         for x, y, fam in pairs():
             for op in ('br-add', 'br-mul', 'br-div', 'br-cmp'):
                 cases.append((op, x, y, fam))
@@ -866,12 +866,13 @@ def parse_fraction_text(s):
     except Exception:
         return None
 
-def eval_texts(c, texts):
+def eval_texts(c, texts, profile='debug'):
     """evaluate each text on a fresh context -> list of ('o', str) | ('e', str) | ('x', raw)"""
     out = []
     B = 40
     lines = [sx([Sym('eval')] + texts[i:i + B]) for i in range(0, len(texts), B)]
-    res = c.impl('num', lines, timeout=60)
+    res = c.impl('num', lines, timeout=60, profile=profile)
+    c.evaluations += len(texts) - len(lines)     # one evaluation per text, not per batch line
     for i, rline in enumerate(res):
         p = try_parse(rline)
         chunk = texts[i * B:(i + 1) * B]
@@ -879,7 +880,7 @@ def eval_texts(c, texts):
             out += [(x[0].decode(), x[1].decode('utf-8', 'replace')) for x in p]
         else:
             # a crash or hang inside the batch: re-run one by one to isolate it
-            single = c.impl('num', [sx([Sym('eval'), t]) for t in chunk], timeout=30)
+            single = c.impl('num', [sx([Sym('eval'), t]) for t in chunk], timeout=30, profile=profile)
             for t, o in zip(chunk, single):
                 q = try_parse(o)
                 if isinstance(q, list) and len(q) == 1 and isinstance(q[0], list) and len(q[0]) == 2:
@@ -891,14 +892,14 @@ def eval_texts(c, texts):
 def check_expressions(c):
     r = c.rng
     quick = c.tier == 'quick'
-    want = 500 if quick else 6000
+    want = 1200 if quick else 12000
     maxdepth = 6 if quick else 8
     trees = [(t, 'corpus') for t in CORPUS_TREES]
     tries = 0
     while len(trees) < want + len(CORPUS_TREES) and tries < want * 30:
         tries += 1
         cx = r.random() < 0.35
-        g = gen_tree(r, r.choice([1, 2, 2, 3, 3, 4, 4, 5, maxdepth]), cx)
+        g = gen_tree(r, r.choice([2, 3, 3, 4, 4, 5, 5, maxdepth, maxdepth]), cx)
         if g is None or not all_sizes_ok(g[0]):
             continue
         trees.append((g[0], 'complex' if cx else 'real'))
@@ -932,14 +933,20 @@ def check_expressions(c):
     outs = eval_texts(c, texts)
     mlines = [sx([Sym('ex-eval'), 1, wire_tree(t, reps)]) for t, _ in all_trees]
     slines = [sx([Sym('ex-spec'), 1, wire_tree(t, reps)]) for t, _ in all_trees]
-    klines = [sx([Sym('ex-known'), 1, wire_tree(t, reps)]) for t, _ in all_trees]
     mo = c.model('num', mlines, timeout=120)
     # cval is the mathematical value: on a 2^64-sized exponent it does not terminate in practice
     huge = [fam == 'error:huge' for _, fam in all_trees]
     so_part = c.model('num', [l for l, h in zip(slines, huge) if not h], cross=False, timeout=120)
     it = iter(so_part)
     so = ['("skipped")' if h else next(it) for h in huge]
-    ko = c.model('num', klines, cross=False, timeout=120)
+    if not quick:
+        # optimised build without overflow checks: same observable behaviour
+        sub = texts[:4 * 1500]
+        outs_rel = eval_texts(c, sub, profile='release')
+        for tx, a, b in zip(sub, outs[:len(sub)], outs_rel):
+            if a != b:
+                c.violation('expression-profile-drift', {'kind': 'impl-debug-vs-release', 'layer': 'L2 expression', 'text': tx[:600],
+                                                         'debug_profile': list(a), 'release_profile': list(b)})
     sampled = False
     for idx, (t, fam) in enumerate(all_trees):
         e = text_of(t)
@@ -963,7 +970,7 @@ def check_expressions(c):
         elif skind in ('div0', '0^0') and cs != [b'undef']:
             c.violation('spec-mismatch', dict(rp, kind='check-internal', python_spec=skind), no_input=True)
         nm = norm_model(mo[idx])
-        known = ko[idx] == '1'
+        known = False     # the unreduced-exponent class was repaired in 19d36f9; kept for a re-opened finding
         # ---- impl vs spec ---------------------------------------------------
         crashed = [x for x in (o_dbg, o_re, o_im, o_plain) if x[0] == 'x']
         if crashed:
